@@ -313,8 +313,13 @@ def replay_session(table: dict, events: list[dict], ns: list[int], seed, tol: fl
                 s.update_parameters({n: float(v) for n, v in fn_to_dict(st["set"]).items()})
                 s.simulate_time_course([float(t) for t in st["times"]])
                 k += 1
-            elif ev["e"] == "edit":
+            elif ev["e"] in ("edit", "editx"):
                 m.update_variable("x", float(table["editx0"]))
+            elif ev["e"] == "editp":        # the assignment-defined parameter is replaced by a number ON THE MODEL
+                m.update_parameter("p", float(table.get("editp", 50)))
+            elif ev["e"] == "readdp":
+                m.remove_parameter("p")
+                m.add_parameter("p", float(table.get("editp", 50)))
             elif ev["e"] == "get":
                 r = s.get_result().unwrap_or_err()
                 results.append(r)
